@@ -233,6 +233,14 @@ try:
     hex_ok = 'let hex = attempt(string("0x").with(many1(hex_digit()))).and_then(move |x: String| { u64::from_str_radix(&x, 16) .map(|v| (v, true)) .map_err(|_| out_of_range()) });' in ptxt
     dec_ok = 'let dec = many1(digit()) .and_then(move |x: String| x.parse::<u64>().map(|v| (v, false)).map_err(|_| out_of_range()));' in ptxt
     reg_ok = "attempt(char('r').skip(not_followed_by(letter()))) .with(many1(digit())) .and_then(|x: String| { x.parse::<i64>() .map_err(|_| StreamErrorFor::<I>::message_static_message(\"register out of range\")) })" in ptxt
+    ident_ok = "fn ident<I>() -> impl Parser<I, Output = String> where I: Stream<Token = char>, I::Error: ParseError<I::Token, I::Range, I::Position>, { many1(alpha_num()) }" in ptxt
+    operand_ok = ("let register_operand = register().map(Operand::Register); let immediate = integer().map(Operand::Integer); let memory = between(char('['), char(']'), (register(), optional(integer()))) "
+                  ".map(|t| Operand::Memory(t.0, t.1.unwrap_or(0))); register_operand.or(immediate).or(memory)") in ptxt
+    instr_ok = "let operands = sep_by(operand(), char(',').skip(spaces())); (ident().skip(spaces()), operands, spaces()).map(|t| Instruction { name: t.0, operands: t.1, })" in ptxt
+    parse_ok = "let mut with = spaces().with(many(instruction()).skip(eof()));" in ptxt and "use combine::parser::char::{alpha_num, char, digit, hex_digit, letter, spaces, string};" in ptxt
+    lines += ["/-- the combinator structure of the parser (`ident` = `many1(alpha_num())`; `operand` = register, else integer, else `[register integer?]`; `instruction` = mnemonic, blanks, operands",
+              "    separated by a comma and blanks, blanks; `parse` = blanks, instructions, end of input; `spaces` is combine's own, i.e. every `char::is_whitespace`) has the modelled shape -/",
+              "def parserStructureShape : Bool := %s" % ("true" if ident_ok and operand_ok and instr_ok and parse_ok else "false")]
     lines += ["/-- the final `and_then` of `integer()`: `s` the sign (-1 or 1), `x` the magnitude (a `u64`), `isHex` how it was written -/",
               "def integerFinalSrc (s : Int) (x : Nat) (isHex : Bool) : Option Int :="] + out + ["  else none",
               "/-- the sign closure ('-' gives -1, anything else 1) and the digit conversions (`from_str_radix(.., 16)` / `parse::<u64>` for literals, `parse::<i64>` for register numbers; overflow is a parse error) have the modelled shapes -/",
@@ -240,7 +248,7 @@ try:
               "def decParseShape : Bool := %s" % ("true" if dec_ok else "false"), "def registerParseShape : Bool := %s" % ("true" if reg_ok else "false"), "def integerFinalSrcOk : Bool := true", ""]
 except Exception as ex:
     problems.append("asm_parser integer(): %s" % ex)
-    lines += ["def integerFinalSrc (s : Int) (x : Nat) (isHex : Bool) : Option Int := none", "def signShape : Bool := false", "def hexParseShape : Bool := false", "def decParseShape : Bool := false",
+    lines += ["def parserStructureShape : Bool := false", "def integerFinalSrc (s : Int) (x : Nat) (isHex : Bool) : Option Int := none", "def signShape : Bool := false", "def hexParseShape : Bool := false", "def decParseShape : Bool := false",
               "def registerParseShape : Bool := false", "def integerFinalSrcOk : Bool := false", ""]
 for p in problems: lines.append("/- not translated: %s -/" % p.replace("-/", "- /"))
 lines += ["end Rbpf.Generated", ""]
